@@ -323,3 +323,59 @@ def trim(x, n=4000):
     if len(s) <= n:
         return x
     return s[:n] + "...(truncated)"
+
+
+# --------------------------------------------------------------------------- trace validation (code -> model)
+
+def validate_traces(wd, module, consts, traces, invariants=(), timeout=600, max_rounds=4, extra_cfg=None, dfs=False):
+    """traces: list of lists of event dicts (without the reset markers).
+    Returns (accepted, rejections, tlc_stats) where rejections = [(trace_index, event_index_in_trace)]."""
+    alive = list(range(len(traces)))
+    rejections = []
+    stats = {"generated": 0, "distinct": 0, "wall_s": 0.0, "runs": 0}
+    for _ in range(max_rounds + 1):
+        if not alive:
+            break
+        os.makedirs(wd, exist_ok=True)
+        path = os.path.join(wd, "trace.ndjson")
+        index = []  # line number (1-based) -> (trace idx, event idx)
+        with open(path, "w") as f:
+            for ti in alive:
+                f.write(json.dumps({"ev": "reset"}) + "\n")
+                index.append((ti, -1))
+                for ei, ev in enumerate(traces[ti]):
+                    f.write(json.dumps(ev) + "\n")
+                    index.append((ti, ei))
+        c = dict(consts)
+        c["TraceFile"] = "trace.ndjson"
+        cfg = mkcfg(spec="TraceSpec", consts=c, invariants=invariants, postcondition="TraceAccepted")
+        if extra_cfg:
+            cfg += extra_cfg
+        r = run_tlc(wd, module, cfg, workers=1, timeout=timeout, dfs=dfs)
+        stats["generated"] += r.generated
+        stats["distinct"] += r.distinct
+        stats["wall_s"] += r.wall
+        stats["runs"] += 1
+        m = re.search(r"TRACE_REJECTED_AT_LINE[\"\s,]*(\d+)", r.out)
+        if m:
+            line = int(m.group(1))            # number of the first line that could not be consumed
+            ti, ei = index[min(line, len(index)) - 1]
+            rejections.append((ti, ei))
+            alive.remove(ti)
+            continue
+        if r.violated and r.violated != "TraceAccepted":
+            # an invariant failed while following the trace: attribute to the trace that contains the last state
+            m2 = re.findall(r"/\\ l = (\d+)", r.out)
+            line = int(m2[-1]) - 1 if m2 else 1
+            ti, ei = index[max(0, min(line, len(index)) - 1)]
+            rejections.append((ti, ei, r.violated))
+            alive.remove(ti)
+            continue
+        if r.error or not r.ok:
+            raise Inconclusive("trace validation with %s failed: %s\n%s" % (module, r.error or r.violated, r.out[-3000:]))
+        alive = []
+        break
+    # traces still in `alive` here were never run to the end (budget of re-runs used up): not counted as accepted
+    stats["unvalidated"] = len(alive)
+    accepted = len(traces) - len(rejections) - len(alive)
+    return accepted, rejections, stats
